@@ -11,6 +11,8 @@
 (*                 [o |-> "values" | "tse" | "exc:<Class>" | "malformed" |  *)
 (*                  "n/a" (receiver not applicable to this list),          *)
 (*                  args, kwargs (sequence of [k, v]), flags]               *)
+(*   r2            the same for the second render of the same compiled      *)
+(*                 template with Ctx2: [lv, probe, comp, short, slot]        *)
 (* Values are typed: int i, str s, float s, bool b, none, list items, dict  *)
 (* items (sequence of [k, v]), other s.  (A str marked safe counts as str.) *)
 (* A record is accepted when text = Text(args, style) and, on both paths,   *)
@@ -90,28 +92,35 @@ Mismatch(obs, outcomes, expect, path, lv) ==
   ELSE IF path = "slot" /\ Len(obs.args) # 0 THEN "args"
   ELSE ""
 
-PathStatus(e, obs, path) ==
+\* c: the context of the render (Ctxs[k]), lv: the stock leaf values recorded for it.  The named
+\* deviations are stated for Ctx (k = 1) only.
+PathStatus(e, k, lv, obs, path) ==
   IF ~PathApplies(e.args, path) THEN (IF obs.o = "n/a" THEN "ok" ELSE "bad:path_not_applicable") ELSE
   LET inv == Invalid(e.args)
-      m == Mismatch(obs, Outcomes(e.args, e.style), IF inv THEN NoValues ELSE Denote(e.args), path, e.lv) IN
+      m == Mismatch(obs, Outcomes(e.args, e.style), IF inv THEN NoValues ELSE DenoteIn(Ctxs[k], e.args), path, lv) IN
   IF m = "" THEN "ok"
-  ELSE LET ds == Devs(e.args)
-           hits == {k \in 1..Len(ds) : /\ path \in ds[k].paths
-                                       /\ Mismatch(obs, ds[k].outcomes, ds[k].expect, path, e.lv) = ""} IN
-       IF hits # {} THEN "dev:" \o ds[CHOOSE k \in hits : TRUE].name
+  ELSE LET ds == IF k = 1 THEN Devs(e.args) ELSE <<>>
+           hits == {j \in 1..Len(ds) : /\ path \in ds[j].paths
+                                       /\ Mismatch(obs, ds[j].outcomes, ds[j].expect, path, lv) = ""} IN
+       IF hits # {} THEN "dev:" \o ds[CHOOSE j \in hits : TRUE].name
        ELSE IF inv THEN "bad:invalid_not_rejected" ELSE "bad:" \o m
 
+\* e.probe .. e.slot: the first render of the compiled template (context Ctx, leaf values e.lv);
+\* e.r2: the second render of the SAME compiled template with Ctx2 ([lv, probe, comp, short, slot])
 Verdict(e) ==
   <<IF Text(e.args, e.style) = e.text THEN "ok" ELSE "bad:layout",
-    PathStatus(e, e.probe, "probe"), PathStatus(e, e.comp, "comp"),
-    PathStatus(e, e.short, "short"), PathStatus(e, e.slot, "slot")>>
+    PathStatus(e, 1, e.lv, e.probe, "probe"), PathStatus(e, 1, e.lv, e.comp, "comp"),
+    PathStatus(e, 1, e.lv, e.short, "short"), PathStatus(e, 1, e.lv, e.slot, "slot"),
+    PathStatus(e, 2, e.r2.lv, e.r2.probe, "probe"), PathStatus(e, 2, e.r2.lv, e.r2.comp, "comp"),
+    PathStatus(e, 2, e.r2.lv, e.r2.short, "short"), PathStatus(e, 2, e.r2.lv, e.r2.slot, "slot")>>
 
+RECURSIVE JoinV(_, _)
+JoinV(v, i) == IF i > Len(v) THEN "" ELSE " " \o v[i] \o JoinV(v, i + 1)
 TrInit == tid = 1
 TrNext == /\ tid <= Len(Traces)
           /\ LET v == Verdict(Traces[tid]) IN
              IF \A i \in 1..Len(v) : v[i] = "ok" THEN PrintT("ACCEPT " \o ToString(Traces[tid].id))
-             ELSE PrintT("REJECT " \o ToString(Traces[tid].id) \o " " \o v[1] \o " " \o v[2] \o " " \o v[3]
-                         \o " " \o v[4] \o " " \o v[5])
+             ELSE PrintT("REJECT " \o ToString(Traces[tid].id) \o JoinV(v, 1))
           /\ tid' = tid + 1
 TrSpec == TrInit /\ [][TrNext]_tid
 =============================================================================
